@@ -30,7 +30,7 @@ func (c05) Describe() engine.Info {
 	return engine.Info{
 		Rule: "scenario = IE/IF/IME start state + [history] HALT <following instruction(s)> with interrupt lines raised k cycles after the HALT (k = 0..64 dense, then log-spaced to 100000), on enabled and on not-enabled lines, plus key events during the idle period. Classes: ime1 (dispatch on wake, 6 cycles), ime0-idle (resume without dispatch, IF untouched), ime0-pending (halt bug: following byte executed twice; following instructions restricted to register-only encodings so that the doubled byte stays a defined, harmless instruction). " +
 			"Oracle: reference SM83 in lock step: halted state after every cycle, no instruction boundary advances PC while idle, wake only on an enabled request, dispatch length, PC/registers after the doubled instruction. Signature = (class, idle-length bucket, line enabled?, what followed)." +
-			" Leaving HALT with the master enable clear may or may not cost a cycle of its own (the reference follows the real CPU); EI;HALT with a request pending: dispatch length 6.",
+			" Leaving HALT with the master enable clear may or may not cost a cycle of its own (the reference follows the real CPU); EI;HALT with a request pending: dispatch length 6. Class ime1-stack-on-ie: SP=0000/0001 before the HALT, so that the dispatch ending it pushes onto IE (handlers park).",
 		Assumptions: []string{
 			"leaving HALT with IME=0 costs one machine cycle before the next instruction (DMG behaviour pinned by mooneye halt_ime0_nointr_timing; the statement does not fix it)",
 			"HALT directly after EI with a request already pending (class ime1-pending) is documented in more than one way for the DMG (return address at or after the HALT); only what all readings share is judged: one dispatch, each handler instruction once, request acknowledged, and the length of that dispatch (6 machine cycles: the statement gives the dispatch after HALT with the master enable set one extra cycle)",
